@@ -8,7 +8,7 @@
 
    PARSE HALF: see the second part of this file. *)
 (* source tie by translation: the lemmas of these files are obligations of this property *)
-From Soy Require Import Proofs.SourceTieErrPos Proofs.SourceTieLexer Proofs.SourceTieParser.
+From Soy Require Import Proofs.SourceTieErrPos Proofs.SourceTieLexer Proofs.SourceTieParser Proofs.SourceTieRegistry.
 From Soy Require Import Model.Bytes Model.Num Model.Values Model.Outcome Model.Ast Model.Escape Model.Directives
   Model.Print Generated.Tables Model.Interp
   Spec.ErrPos Proofs.InterpLogic Proofs.WalkRel Proofs.ErrPosProofs Proofs.ErrPathProofs.
